@@ -92,6 +92,15 @@ def run(ctx):
   def mutw(b):
     b[-1]["exp"]["closes"] += 1
   negative_control(ctx, ADW, behs[-1], {}, mutw)
+  # a worker that is still connecting: data queued meanwhile and what the connect handler sends leave in order
+  mc(ctx, "Worker", "MC_WC.cfg", ["Send", "SendFast", "DoSend", "Shutdown"])
+  r = tlc.run("sendpath", "Worker", "EX_WC.cfg", workers=1, coverage=False, tag="C20")
+  behs = r.tagged("T")
+  if not any(s["a"] == "DoSend" and b[i - 1]["exp"]["connecting"] and b[i - 1]["exp"]["buf"]
+             for b in behs for i, s in enumerate(b) if i > 0):
+    raise core.Machinery("EX_WC: no behaviour in which the loop serves a connecting worker with queued data")
+  st = core.replay(ctx, ADW, behs, params=dict(connecting=True), chunk=50)
+  ctx.notes["replay EX_WC (connecting worker, 3 msgs)"] = dict(behaviours=len(behs), **st)
   r = tlc.run("sendpath", "Worker", "SIM_W.cfg", workers=1, coverage=False, simulate=dict(num=num),
               depth=13, seed=ctx.seed + 4, tag="C20")
   behs = r.tagged("H")
